@@ -389,15 +389,40 @@ pub struct ManagerCase {
     pub configured: u8,
     pub single: bool,
     pub items: Vec<MItem>,
+    /// a reader (another thread) holds the read lock of the item's book while the manager is
+    /// handed the item at these positions (selectors into `items`); at most two are used
+    #[serde(default)]
+    pub reader_holds_at: Vec<u16>,
 }
 
 pub struct BookManager;
 
-fn run_manager<M>(map: M, items: Vec<MarketStreamEvent<u8, OrderBookEvent>>)
+/// `holds[i] = Some(book)`: while item i is handed to the manager another thread holds a read lock
+/// on that book (taken before the item is yielded, released 2 ms later). The manager must wait for
+/// the lock and apply the events in stream order all the same.
+fn run_manager<M>(map: M, items: Vec<MarketStreamEvent<u8, OrderBookEvent>>, holds: Vec<Option<Arc<RwLock<OrderBook>>>>)
 where
     M: OrderBookMap<Key = u8>,
 {
-    let stream = futures::stream::iter(items);
+    use futures::StreamExt;
+    let mut reader: Option<std::thread::JoinHandle<()>> = None;
+    let stream = futures::stream::iter(items.into_iter().zip(holds)).map(move |(item, hold)| {
+        // the reader of the previous item has let go before the next item is handed over
+        if let Some(r) = reader.take() {
+            let _ = r.join();
+        }
+        if let Some(book) = hold {
+            let (tx, rx) = std::sync::mpsc::channel();
+            reader = Some(std::thread::spawn(move || {
+                let guard = book.read();
+                let _ = tx.send(());
+                std::thread::sleep(std::time::Duration::from_millis(2));
+                drop(guard);
+            }));
+            let _ = rx.recv();
+        }
+        item
+    });
     let manager = OrderBookL2Manager { stream, books: map };
     futures::executor::block_on(manager.run());
 }
@@ -413,11 +438,12 @@ impl Check for BookManager {
                 1 => Just(MItem::Reconnecting),
             ],
             0..30,
-        ))
-            .prop_map(|(configured, single, items)| ManagerCase {
+        ), prop_oneof![9 => Just(vec![]), 1 => prop::collection::vec(any::<u16>(), 1..3)])
+            .prop_map(|(configured, single, items, reader_holds_at)| ManagerCase {
                 configured: if single { 1 } else { configured },
                 single,
                 items,
+                reader_holds_at,
             })
             .boxed()
     }
@@ -441,14 +467,31 @@ impl Check for BookManager {
                 }),
             })
             .collect();
+        let mut holds: Vec<Option<Arc<RwLock<OrderBook>>>> = vec![None; case.items.len()];
+        let mut held_updates = 0;
+        for sel in case.reader_holds_at.iter().take(2) {
+            if case.items.is_empty() {
+                break;
+            }
+            let at = (*sel as usize * case.items.len()) >> 16;
+            if let MItem::Item { key, .. } = &case.items[at] {
+                if *key < case.configured {
+                    holds[at] = Some(books[*key as usize].clone());
+                    // a later event for the same book exists: its order relative to this one matters
+                    if case.items[at + 1..].iter().any(|i| matches!(i, MItem::Item { key: k, .. } if k == key)) {
+                        held_updates += 1;
+                    }
+                }
+            }
+        }
         if case.single {
-            run_manager(OrderBookMapSingle::new(0u8, books[0].clone()), stream_items);
+            run_manager(OrderBookMapSingle::new(0u8, books[0].clone()), stream_items, holds);
         } else {
             let mut map: FnvHashMap<u8, Arc<RwLock<OrderBook>>> = FnvHashMap::default();
             for (k, b) in books.iter().enumerate() {
                 map.insert(k as u8, b.clone());
             }
-            run_manager(OrderBookMapMulti::new(map), stream_items);
+            run_manager(OrderBookMapMulti::new(map), stream_items, holds);
         }
         // oracle: each configured book == a book fed directly with exactly its own events;
         // and == the map model
@@ -490,6 +533,7 @@ impl Check for BookManager {
         rep.class_if(!case.single, "multi_map");
         rep.class_if(unconfigured > 0, "unconfigured_instrument_event");
         rep.class_if(reconnects > 0, "reconnect_notice");
+        rep.class_if(held_updates > 0, "reader_holds_the_book_while_an_update_arrives");
         rep.nontrivial = case.items.len() >= 4 && unconfigured > 0 && reconnects > 0;
         rep
     }
@@ -536,7 +580,7 @@ fn enumerate(max_len: usize) -> impl Iterator<Item = BookCase> {
 }
 
 pub fn run(ctx: &mut Ctx) {
-    ctx.rule = "book_model: vec(event,0..40|80) of OrderBookEvent::{Update 85%,Snapshot 15%}; update level lists unsorted, prices from a 12-point grid in 3 decimal representations (+ wild prices), 35% zero amounts; non-trivial = >=3 events AND >=1 delete of a present level AND (>=1 price repeated inside one update OR >=1 insert strictly inside a side) AND both sides touched; distinct by hash of the event list. book_manager: stream of Item/Reconnecting over configured and unconfigured instrument keys through OrderBookL2Manager::run (single and multi map); non-trivial = >=4 items with an unconfigured-instrument event and a reconnect notice. Exhaustive: every sequence up to the stated length over the 18-letter alphabet {bid,ask} x {price 1,2,3} x {amount 0,1,2}.".into();
+    ctx.rule = "book_model: vec(event,0..40|80) of OrderBookEvent::{Update 85%,Snapshot 15%}; update level lists unsorted, prices from a 12-point grid in 3 decimal representations (+ wild prices), 35% zero amounts; non-trivial = >=3 events AND >=1 delete of a present level AND (>=1 price repeated inside one update OR >=1 insert strictly inside a side) AND both sides touched; distinct by hash of the event list. book_manager: stream of Item/Reconnecting over configured and unconfigured instrument keys through OrderBookL2Manager::run (single and multi map); in a tenth of the cases another thread holds the read lock of a book for 2 ms exactly while an update for it is handed to the manager and lets go before the next item is handed over (the only place where the harness does not own the schedule: the manager must wait and keep stream order); non-trivial = >=4 items with an unconfigured-instrument event and a reconnect notice. Exhaustive: every sequence up to the stated length over the 18-letter alphabet {bid,ask} x {price 1,2,3} x {amount 0,1,2}.".into();
     ctx.assumptions = vec![
         "snapshots are well-formed venue snapshots (unique prices, positive amounts) as every connector passes to OrderBook::new".into(),
         "a price named more than once inside ONE update is a sequence of writes, the last one counts; for level lists longer than 20 the connector's unstable sort may reorder equal prices, there any of the writes is accepted".into(),
